@@ -153,6 +153,10 @@ func (m *fsmMonitor) check(preBz []byte, inst *sm.FSMInstance, ev string, args [
 			if part, in := q[pid]; !in || part.Status != ph.await {
 				m.report("C05", "exactly_once", "contribution accepted from a participant that is not awaited", idx, ev, args)
 			}
+			// a phase's contribution is its content: an accepted request without any is no delivery
+			if len(unhexTok(args[2])) == 0 {
+				m.report("C05", "exactly_once", "a "+ph.argKind+" contribution without content was accepted as the participant's delivery", idx, ev, args)
+			}
 			// late timestamp must cancel
 			ts := parseTimeTok(args[3])
 			if pre.Payload.DKGProposalPayload.ExpiresAt.Before(ts) && !isCancelledDkg(post.State) {
@@ -228,6 +232,10 @@ func (m *fsmMonitor) check(preBz []byte, inst *sm.FSMInstance, ev string, args [
 				pid := atoi(args[2])
 				if part, in := sp.Quorum[pid]; !in || part.Status != 0 {
 					m.report("C06", "no_double_count", "contribution accepted from a participant that is not awaited", idx, ev, args)
+				}
+				// a contribution is at least one partial signature: an answer without any is not one
+				if len(args) > 4 && args[4] == "0" {
+					m.report("C06", "no_double_count", "an answer without a single partial signature was counted as a contribution", idx, ev, args)
 				}
 				// C07: "however late": a correct answer of an awaited participant is counted whatever its stamp; it never ends the
 				// batch by a deadline
